@@ -203,7 +203,7 @@ def native_playback(spec, slot, harness_path, vals, logdir, label):
             env["CARGO_PROFILE_TEST_OPT_LEVEL"] = "3"
             env["CARGO_PROFILE_TEST_DEBUG_ASSERTIONS"] = "false"
             env["CARGO_PROFILE_TEST_OVERFLOW_CHECKS"] = "false"
-        cmd += ["--", "verif_playback_case", "--exact", "--nocapture", "--test-threads", "1"]
+        cmd += ["--", "verif_playback_gen::verif_playback_case", "--exact", "--nocapture", "--test-threads", "1"]
         log = os.path.join(logdir, "%s.%s.native-%s.log" % (spec["name"], label, profile))
         rc, out, to, wall = core.run_cmd(cmd, slot.tree, env, 900, log=log)
         ran = "running 1 test" in out
